@@ -360,7 +360,17 @@ def judge(c, w, p, key, kinds):
             ok = any(a is not None and len(a) > 2 and a[1] == ins and
                      a[2] == success_ops.get(code) for k_, a in w.answers if k_ >= base)
         elif last is not None and success_ops is None and isinstance(o, list):
-            ok = True     # commands without a success opcode: any well-formed answer counts
+            # commands without a success opcode: a well-formed answer counts. The answers to
+            # the blockchain-state queries name the query they answer (hash / difficulty /
+            # flags): an answer to another query is not the device reporting the datum asked
+            # for. (Heartbeat answers carry an operation byte too, which the middleware has
+            # never looked at; whether it must is not claimed.)
+            ok = True
+            if fam == "state":
+                nominal = [e[3] for e in w.log if e[0] == "fault" and e[1] == "op" and
+                           len(e) > 3]
+                if nominal and len(nominal[-1]) > 2 and nominal[-1][2] != o[1]:
+                    ok = False
         if not ok:
             raise Violation("success-code-without-device-success:%s" % cmd,
                             "%s -> %r although the device's last answer was %s" % (
